@@ -147,7 +147,8 @@ func (w *world) supervise(c *Case, k int, wantLog bool) (*crashkit.Result, *repo
 	}
 	o := crashkit.Opts{Classes: "fsp", Prefixes: []string{w.h.Dir}, WantLog: wantLog, Env: cliEnv(w.h), Dir: w.h.Dir, Timeout: 90 * time.Second}
 	if c.failAt > 0 {
-		o.FailAt, o.FailErrno = c.failAt, 24
+		// by name, not by index: the first accept(2) of the first run fails with EMFILE
+		o.FailCall, o.FailNth, o.FailErrno = "accept", 1, 24
 	}
 	if k > 0 {
 		o.HoldAt = k
